@@ -60,6 +60,25 @@ def ordered_locals(fn):
     return params, locs
 
 
+def fingerprints(fn):
+    """{local name: how it is used}: for every occurrence, in source order, (load / store, type of the enclosing node, field).
+    A renamed variable keeps its fingerprint; a newly introduced temporary has its own."""
+    out = {}
+
+    def walk(node, parent, field):
+        if isinstance(node, ast.Name):
+            out.setdefault(node.id, []).append("%s/%s.%s" % (type(node.ctx).__name__[0], type(parent).__name__, field))
+        for f, v in ast.iter_fields(node):
+            if isinstance(v, list):
+                for x in v:
+                    if isinstance(x, ast.AST):
+                        walk(x, node, f)
+            elif isinstance(v, ast.AST):
+                walk(v, node, f)
+    walk(fn, None, "")
+    return {k: " ".join(v) for k, v in out.items()}
+
+
 def table():
     global _TABLE
     if _TABLE is None:
@@ -87,12 +106,24 @@ def aliases(func):
     pinned = table().get(key)
     if pinned:
         params, locs = ordered_locals(node)
+        cur = set(params) | set(locs)
         for old, new in ((pinned["params"], params), (pinned["locals"], locs)):
             if len(old) == len(new):
-                cur = set(params) | set(locs)
                 for o, n in zip(old, new):
                     if o != n and o not in cur:
                         out[o] = n
+        # lists of different length (temporaries were added or removed as well): a vanished name is the new name with the
+        # same usage fingerprint, if there is exactly one
+        fp_old = pinned.get("uses", {})
+        if fp_old:
+            fp_new = fingerprints(node)
+            known = set(pinned["params"]) | set(pinned["locals"])
+            for o in pinned["locals"] + pinned["params"]:
+                if o in cur or o in out or o not in fp_old:
+                    continue
+                cands = [n for n in locs + params if n not in known and fp_new.get(n) == fp_old[o] and n not in out.values()]
+                if len(cands) == 1:
+                    out[o] = cands[0]
     _CACHE[ck] = out
     return out
 
